@@ -14,6 +14,7 @@ def prop(id, **kw):
 
 prop("C08",
      gens=["Key"],
+     lean_targets=["MtailVerif.Props.C08", "MtailVerif.Props.C09"],
      level_text="Proof: Key.encode (the model of buildLabelValueKey, with its replacement pairs and terminator regenerated from the Go source on every run) is proved injective on tuples of equal arity for all byte strings (encode_injective, via an explicit decoder); the datum-level clauses follow from the C09 refinement. Tie: exact key bytes and a create/expire/delete scenario on a real Metric are compared with the model over an exhaustive small scope plus seeded random tuples.",
      level_note="Trusted: Lean kernel; the go/ast extractor (ReplaceAll pairs, terminator); the harness diff; Go's map and strings.ReplaceAll semantics as modelled. The theorem is about the model; the correspondence is sampled.",
      rule="exhaustive: every tuple over {'-','\\\\','a',0x00,0xff} (quick: arity1 len<=3, arity2 len<=2, arity3/4 len<=1; thorough: arity1 len<=5, arity2 len<=3, arity3 len<=2, arity4 len<=1) -> key bytes compared with the model and checked for collisions on the implementation; seeded random long tuples; seeded pairs (equal / boundary-shifted / mutated) driven through GetDatum, ExpireDatum, RemoveDatum on a real Metric. Non-trivial = distinct case payloads (all cases exercise the encoder; duplicates are not counted).",
@@ -26,3 +27,10 @@ prop("C15",
      level_note="Trusted: Lean kernel; extractor; harness diff. Not modelled: Go slice capacity/aliasing inside ReadAndSend (exercised by buffer sizes 1-4 in the correspondence), the stale-read timer, the expvar counter.",
      rule="exhaustive: all strings over {\\n,\\r,a} up to length 5 (thorough 8) and over {\\n,\\r,a,0xC3,0xA9} up to 4 (thorough 6) x all compositions into chunks, buffer size cycling 1..4, EOF-with-last-read alternating; seeded random streams up to 1500 bytes with random chunking and zero-length reads. Non-trivial = distinct cases whose stream contains at least one newline.",
      assumptions=["each Read result is one chunk; a chunk larger than the offered buffer is continued on the next Read"])
+
+prop("C09",
+     gens=["Key"],
+     level_text="Proof: the model of Metric keeps both Go representations (LabelValues slice, labelValuesMap index keyed by the regenerated key encoding) and is proved to refine an insertion-ordered map for every operation sequence (metric_refines_ordered_map, every_step_agrees: same outputs, same content, representation invariant preserved), with the named clauses as corollaries (each live tuple enumerated once, deleting an absent tuple is a no-op, expiry on an absent tuple is an error, wrong arity rejected unchanged, frame). Key injectivity is the C08 theorem, used not assumed. Tie: operation sequences (exhaustive to length 3/4 over 3 tuples + seeded random to length 60, arity 0-3, every kind and scalar type) on a real Metric, comparing per-step outputs, slice order, values, timestamps, expiry, index size and slice/index agreement.",
+     level_note="Trusted: Lean kernel; extractor (key encoding); harness diff; Go map semantics as an association list; pointer identity modelled by allocation counters. Datum arithmetic is not part of this property (the payload is abstract in the theorems).",
+     rule="exhaustive: all operation sequences up to length 3 (thorough 4) over 17 operations on 3 tuples (get/set/remove/expire/find x {a,-,a-}, emit, wrong-arity get and expire), each followed by an emit; seeded random sequences up to length 60 over a 7-string universe including separator/escape bytes, arity 0-3, types int/float/string, kinds 1-5. Non-trivial = distinct cases with at least two operations.",
+     assumptions=["Go map semantics modelled as association list", "the Buckets value type is covered by C21, not here"])
